@@ -94,7 +94,7 @@ def run():
         "accepted with the original text or refused - the statement is silent; it may never yield other text",
         "v2 / legacy ciphertexts are produced by the harness from the documented wire format (PBKDF2-SHA256 100000 "
         "iterations, SHA-256, MD5-hex keys; layout constants from the spec) because the code can only read them",
-        "token expiry / blacklist are not exercised (1h tokens, no blacklist database)"]
+        "token expiry / blacklist are not exercised (30-day tokens, no blacklist database)"]
     with vf.scratch() as sd:
         # 1. the design: exhaustive over every byte string at a small layout
         r = vf.tlc_ok(vf.tlc(SPEC, "CryptoEnvelope_MC", "CryptoEnvelope_MC.cfg" if thorough else "CryptoEnvelope_MCq.cfg", sd,
